@@ -12,6 +12,8 @@
 //!   T  c19rx <limit> <oracle> <events>               ## <result>,<result>,..
 //!        `Connection::receive_message_from_read_half` called directly over a loopback socket with a short timeout,
 //!        until the first read-level error (ties the classification of frames and the timeout semantics)
+//!   T  c19bp <oracle> <world> <history> <gated> <fillers> ## <logs@rpcs before the gate opens>|<logs@rpcs after>
+//!        full mailboxes: the bounded system (Impl/ReceiverBP.lean) with the capacity and the send forms of the source
 //!   T  c19idle <limit> <history>                     ## <alive|stopped>     (thorough tier: the real idle limit of a Node)
 //!   X  c19-...                                       failures the harness sees itself
 //!
@@ -35,6 +37,7 @@ const PROBE: &str = "probe19";
 const FENCE: &str = "barrier19";
 const DIE: &str = "die19";
 const LOCAL: &str = "inner19";
+const FILL: &str = "fill19";
 const COOKIE: &str = "c19cookie";
 const CONN_CAP: u64 = 64 * 1024 * 1024;
 
@@ -48,6 +51,11 @@ struct Shared {
     fences: Vec<bool>,
     locals: Vec<Vec<i64>>,
     rpcs: Vec<Option<String>>,
+    /// full-mailbox scenarios: the handler of process i waits while `gated[i]`; `at_gate[i]`: it is waiting there;
+    /// `fills[i]`: the numbers of the filler messages it handled, in order
+    gated: Vec<bool>,
+    at_gate: Vec<bool>,
+    fills: Vec<Vec<i64>>,
 }
 
 struct Logger {
@@ -76,6 +84,17 @@ fn tagged(t: &OwnedTerm, tag: &str) -> Option<i64> {
 
 impl Process for Logger {
     async fn handle_message(&mut self, msg: Message) -> edp_node::Result<()> {
+        // the gate of the full-mailbox scenarios: the handler does not return, the process takes nothing more
+        loop {
+            {
+                let mut sh = self.sh.lock().unwrap();
+                if !sh.gated.get(self.idx).copied().unwrap_or(false) {
+                    break;
+                }
+                sh.at_gate[self.idx] = true;
+            }
+            tokio::time::sleep(Duration::from_millis(1)).await;
+        }
         let mut sh = self.sh.lock().unwrap();
         let i = self.idx;
         let text = match &msg {
@@ -92,6 +111,12 @@ impl Process for Logger {
                 if let Some(k) = tagged(body, LOCAL) {
                     if i < sh.locals.len() {
                         sh.locals[i].push(k);
+                    }
+                    return Ok(());
+                }
+                if let Some(k) = tagged(body, FILL) {
+                    if i < sh.fills.len() {
+                        sh.fills[i].push(k);
                     }
                     return Ok(());
                 }
@@ -642,6 +667,9 @@ async fn setup(case: usize, epmd: &FakeEpmd, spec: &WorldSpec) -> Result<Scn, St
         g.probes = vec![false; spec.nlive];
         g.fences = vec![false; spec.nlive];
         g.locals = vec![vec![]; spec.nlive];
+        g.gated = vec![false; spec.nlive];
+        g.at_gate = vec![false; spec.nlive];
+        g.fills = vec![vec![]; spec.nlive];
         g.rpcs = vec![None; spec.nrpc];
     }
     let mut live = vec![];
@@ -897,6 +925,112 @@ async fn scenario<G: FnOnce(&mut Rng, &World) -> Vec<Item>>(ctx: &mut Ctx, epmd:
         eprintln!("case {} setup {:?} play {:?} {}", case, d_setup, t_play.elapsed(), observed.split('@').next().unwrap_or(""));
     }
     report(ctx, tag, &p, &observed, dereg);
+}
+
+// ---------------------------------------------------------------------------------------------------------
+// full mailboxes: the handler of one process is held at a gate, its mailbox is filled to capacity with local messages
+// (through the handle's sender, `try_send`, so that the harness itself never waits), then the peer's history arrives —
+// its FIRST frame is deliverable to the gated process —, the harness looks at what has arrived anywhere ("before": with a
+// receiver that waits for room, nothing), opens the gate, and the scenario ends like every other one.
+
+fn logs_text(sh: &Arc<Mutex<Shared>>) -> String {
+    let g = sh.lock().unwrap();
+    let logs: Vec<String> = g.logs.iter().map(|l| if l.is_empty() { "-".to_string() } else { l.join("/") }).collect();
+    let rpcs: Vec<String> = g.rpcs.iter().map(|r| r.clone().unwrap_or("-".to_string())).collect();
+    format!("{}@{}", logs.join(";"), if rpcs.is_empty() { "-".to_string() } else { rpcs.join(";") })
+}
+
+/// fills the mailbox of live process `gi` behind a closed gate; returns how many filler messages it took (capacity + the one
+/// the process task holds), or why not
+async fn fill_mailbox(scn: &Scn, gi: usize) -> Result<usize, String> {
+    scn.sh.lock().unwrap().gated[gi] = true;
+    let pid = scn.w.live[gi].clone();
+    let handle = scn.node.registry().get(&pid).await.ok_or("gated process not in the registry".to_string())?;
+    let body = |k: i64| Message::Regular { from: None, body: tup(vec![atom(FILL), int(k)]) };
+    handle.mailbox_sender.try_send(body(0)).map_err(|_| "first filler refused".to_string())?;
+    let sh = scn.sh.clone();
+    if !wait_until(|| sh.lock().unwrap().at_gate[gi], Duration::from_secs(3)).await {
+        return Err("process never reached the gate".into());
+    }
+    let mut n = 1usize;
+    while n < 100_000 {
+        if handle.mailbox_sender.try_send(body(n as i64)).is_err() {
+            break;
+        }
+        n += 1;
+    }
+    Ok(n)
+}
+
+async fn full_scenario(ctx: &mut Ctx, epmd: &FakeEpmd, case: &mut usize, kinds: Vec<Kind>, nrpc: usize, faults: bool) {
+    let spec = WorldSpec { nlive: 2, names: vec![("srv".into(), 0)], ndead: 0, nrpc, local_traffic: false };
+    let Some(mut p) = prepare(ctx, epmd, case, &spec, |r, w| {
+        // everything deliverable goes to process 0 (the gated one); the probes for both processes follow
+        let mut w0 = w.clone();
+        w0.live = vec![w.live[0].clone()];
+        let mut h = vec![];
+        for (i, &k) in kinds.iter().enumerate() {
+            h.push(gen_item(r, &w0, k));
+            if faults && i % 2 == 0 {
+                let fk = *r.pick(&[Kind::Undecodable, Kind::SendGhost, Kind::Tick, Kind::UnknownTag, Kind::BadMarker]);
+                h.push(gen_item(r, w, fk));
+            }
+        }
+        if !w.rpc.is_empty() {
+            h.push(gen_item(r, w, Kind::SendRpc));
+        }
+        h
+    })
+    .await
+    else {
+        return;
+    };
+    let gi = 0usize;
+    let fills = match fill_mailbox(&p.scn, gi).await {
+        Ok(n) => n,
+        Err(e) => {
+            ctx.fail("c19-full-setup", &e);
+            return;
+        }
+    };
+    ctx.count("full_mailbox_scenarios");
+    ctx.add("full_mailbox_fillers", fills as u64);
+    // the history arrives while the mailbox is full
+    for it in &p.h {
+        let b = item_bytes(it);
+        let _ = p.scn.pc.stream.write_all(&b).await;
+        let _ = p.scn.pc.stream.flush().await;
+    }
+    tokio::time::sleep(Duration::from_millis(60)).await;
+    let before = logs_text(&p.scn.sh);
+    // the gate opens
+    p.scn.sh.lock().unwrap().gated[gi] = false;
+    let (observed, dereg) = play(&mut p.scn, &[], false).await;
+    let fills_ok = p.scn.sh.lock().unwrap().fills[gi] == (0..fills as i64).collect::<Vec<i64>>();
+    if !fills_ok {
+        let got = p.scn.sh.lock().unwrap().fills[gi].len();
+        ctx.fail("c19-full-local-messages-lost-or-reordered", &format!("filled {} handled {} world={} history={}", fills, got, p.scn.w.text(), history_text(&p.h)));
+    }
+    let wt = p.scn.w.text();
+    let ht = history_text(&p.h);
+    let after = observed.splitn(2, '@').nth(1).unwrap_or("").to_string();
+    ctx.tie("full", &format!("c19bp {} {} {} {} {}", p.oracle, wt, ht, gi, fills), &format!("{}|{}", before, after));
+    report(ctx, "full", &p, &observed, dereg);
+}
+
+async fn full_scenarios(ctx: &mut Ctx, epmd: &FakeEpmd, case: &mut usize) {
+    full_scenario(ctx, epmd, case, vec![Kind::ExitLive, Kind::MonExitLive, Kind::SendLive, Kind::RegLive], 0, false).await;
+    full_scenario(ctx, epmd, case, vec![Kind::Exit2Live, Kind::ExitTtLive, Kind::Exit2TtLive, Kind::SendTtLive, Kind::RegSendTtLive], 1, false).await;
+    full_scenario(ctx, epmd, case, vec![Kind::MonExitLive, Kind::ExitLive], 1, true).await;
+    let n = ctx.n(3, 40);
+    let deliverable = [Kind::SendLive, Kind::RegLive, Kind::ExitLive, Kind::Exit2Live, Kind::MonExitLive, Kind::SendTtLive, Kind::RegSendTtLive, Kind::ExitTtLive, Kind::Exit2TtLive];
+    for _ in 0..n {
+        let m = ctx.rng.range(1, 6) as usize;
+        let kinds: Vec<Kind> = (0..m).map(|_| *ctx.rng.pick(&deliverable)).collect();
+        let nrpc = ctx.rng.below(2) as usize;
+        let faults = ctx.rng.chance(1, 2);
+        full_scenario(ctx, epmd, case, kinds, nrpc, faults).await;
+    }
 }
 
 /// the real idle limit of a Node's receiver (thorough tier): silences of the length of a peer's tick interval with ticks
@@ -1227,6 +1361,8 @@ pub fn run(ctx: &mut Ctx) {
                 .await;
             }
         }
+        // 2b. full mailboxes
+        full_scenarios(ctx, &epmd, &mut case).await;
         // 3. random histories over random worlds
         let n = ctx.n(60, 600);
         for _ in 0..n {
